@@ -656,6 +656,10 @@ PROVE_ORDER = ["all", "all+opt", "pure", "inst", "inst+ufabs", "ufabs", "ring+uf
                "cone1", "cone1+opt"]
 
 
+# second pass (full budget): only the stages that profit from more time
+PROVE_ORDER_FULL_BUDGET = ["all", "all+opt", "inst", "ring+ufabs", "cone0", "cone0+opt"]
+
+
 def discharge_all(obligs, timeout_s=10, workers=16):
     """obligs: list of (hyps, opt, goal[, candidates[, hint]]).
 
@@ -719,7 +723,7 @@ def discharge_all(obligs, timeout_s=10, workers=16):
                 by_hint.setdefault(h.replace("(hint)", ""), []).append(i)
         for h, idxs in by_hint.items():
             run_stage(h, [i for i in idxs if i in open_], budget, False)
-        for stage in PROVE_ORDER:
+        for stage in (PROVE_ORDER if not use_cvc5 else PROVE_ORDER_FULL_BUDGET):
             if not open_:
                 break
             run_stage(stage, sorted(open_), budget, use_cvc5)
